@@ -32,6 +32,8 @@ type Opts struct {
 	Gaps       bool // idle gaps inside feeders (time-outs flush held runs)
 	DiscardCol bool // an action BEFORE the holding column may discard
 	TwoHolders bool // two holding columns (e.g. k8s multiline followed by join)
+	FastOut    bool // batch count 1, no send delays, no feeder pauses, no slow events
+	SplitOften bool // every second event is split
 }
 
 type Rng interface {
@@ -63,6 +65,9 @@ func GenCase(r Rng, o Opts) hx.Sx {
 	capacity := r.Range(2, 24)
 	evTimeout := r.Range(20, 60)
 	workers, count, flush := r.Range(1, 3), r.Range(1, 4), r.Range(5, 40)
+	if o.FastOut {
+		workers, count, capacity = r.Range(2, 3), 1, 24
+	}
 	retry := r.Range(0, 1)
 	dq, spread := 0, 0
 	if o.DeadQ {
@@ -103,7 +108,7 @@ func GenCase(r Rng, o Opts) hx.Sx {
 			}
 			opsStr := sb.String()
 			js := fmt.Sprintf(`{"stream":"s%d","ops":"%s"`, r.Intn(nstreams), opsStr)
-			if o.Split && r.Chance(1, 6) && nAct > 0 {
+			if o.Split && (r.Chance(1, 6) || (o.SplitOften && r.Bool())) && nAct > 0 {
 				col := r.Intn(nAct)
 				if holdCol < 0 || col >= holdCol {
 					b := []byte(opsStr)
@@ -124,7 +129,7 @@ func GenCase(r Rng, o Opts) hx.Sx {
 				}
 				js += fmt.Sprintf(`,"m":"%s"`, string(mb))
 			}
-			if r.Chance(1, 8) {
+			if !o.FastOut && r.Chance(1, 8) {
 				js += fmt.Sprintf(`,"slow":%d`, r.Range(50, 2000))
 			}
 			if r.Chance(1, 25) {
@@ -137,7 +142,7 @@ func GenCase(r Rng, o Opts) hx.Sx {
 			ops = append(ops, hx.L(hx.I(0), hx.I(s+1), hx.I(off), hx.S(js)))
 			if o.Gaps && r.Chance(1, 6) {
 				ops = append(ops, hx.L(hx.I(1), hx.I(r.Range(1, 3)*evTimeout+r.Range(0, 250))))
-			} else if r.Chance(1, 8) {
+			} else if !o.FastOut && r.Chance(1, 8) {
 				ops = append(ops, hx.L(hx.I(1), hx.I(r.Range(1, 15))))
 			}
 		}
@@ -154,7 +159,11 @@ func GenCase(r Rng, o Opts) hx.Sx {
 				f = 1
 			}
 		}
-		plan = append(plan, hx.L(hx.I(r.Intn(20)), hx.I(f)))
+		d := r.Intn(20)
+		if o.FastOut {
+			d = 0
+		}
+		plan = append(plan, hx.L(hx.I(d), hx.I(f)))
 	}
 	return hx.L(cfg, hx.L(feeders...), hx.L(plan...))
 }
@@ -183,7 +192,12 @@ var (
 	FamSplit             = Opts{Procs: []int{1, 2, 4}, Actions: [2]int{1, 3}, Ops: "pppd", HoldCol: true, Split: true, OutKinds: []int{0, 1}, Sources: [2]int{1, 2}, Streams: [2]int{1, 2}, Events: [2]int{3, 20}, Gaps: true}
 	FamDiscardBeforeHold = Opts{Procs: []int{1, 2, 4}, Actions: [2]int{2, 3}, Ops: "ppd", HoldCol: true, DiscardCol: true, OutKinds: []int{0, 1}, Sources: [2]int{1, 2}, Streams: [2]int{1, 2}, Events: [2]int{3, 20}, Gaps: true}
 	FamTwoHolders        = Opts{Procs: []int{1, 2, 4}, Actions: [2]int{2, 3}, Ops: "ppp", HoldCol: true, TwoHolders: true, OutKinds: []int{0, 1}, Sources: [2]int{1, 2}, Streams: [2]int{1, 2}, Events: [2]int{4, 25}, Gaps: true}
-	FamRetry             = Opts{Procs: []int{1, 2, 4}, Actions: [2]int{0, 2}, Ops: "pppd", OutKinds: []int{2}, Failures: true, Sources: [2]int{1, 2}, Streams: [2]int{1, 2}, Events: [2]int{4, 30}}
-	FamDeadQ             = Opts{Procs: []int{1, 2, 4}, Actions: [2]int{0, 2}, Ops: "pppd", OutKinds: []int{2}, Failures: true, DeadQ: true, Sources: [2]int{1, 2}, Streams: [2]int{1, 2}, Events: [2]int{4, 30}}
-	FamSpread            = Opts{Procs: []int{2, 4, 8}, Actions: [2]int{0, 2}, Ops: "pppd", OutKinds: []int{0, 1}, Spread: true, Sources: [2]int{2, 4}, Streams: [2]int{1, 1}, Events: [2]int{10, 40}}
+	// many pass / discard alternations on few streams with a fast batching output: the batcher worker's commit of
+	// event N races with the processor's commit of the discarded event N+1 on the stream mutex
+	FamCommitRace = Opts{Procs: []int{2, 4}, Actions: [2]int{1, 1}, Ops: "pd", OutKinds: []int{1}, Sources: [2]int{1, 2}, Streams: [2]int{1, 1}, Events: [2]int{1500, 2500}, FastOut: true}
+	FamRetry      = Opts{Procs: []int{1, 2, 4}, Actions: [2]int{0, 2}, Ops: "pppd", OutKinds: []int{2}, Failures: true, Sources: [2]int{1, 2}, Streams: [2]int{1, 2}, Events: [2]int{4, 30}}
+	FamDeadQ      = Opts{Procs: []int{1, 2, 4}, Actions: [2]int{0, 2}, Ops: "pppd", OutKinds: []int{2}, Failures: true, DeadQ: true, Sources: [2]int{1, 2}, Streams: [2]int{1, 2}, Events: [2]int{4, 30}}
+	// a failed batch routed to the dead queue that contains the parent of a split
+	FamDeadQSplit = Opts{Procs: []int{1, 2, 4}, Actions: [2]int{1, 2}, Ops: "ppp", Split: true, SplitOften: true, OutKinds: []int{2}, Failures: true, DeadQ: true, Sources: [2]int{1, 2}, Streams: [2]int{1, 2}, Events: [2]int{4, 20}}
+	FamSpread     = Opts{Procs: []int{2, 4, 8}, Actions: [2]int{0, 2}, Ops: "pppd", OutKinds: []int{0, 1}, Spread: true, Sources: [2]int{2, 4}, Streams: [2]int{1, 1}, Events: [2]int{10, 40}}
 )
